@@ -691,7 +691,7 @@ func writesGatedByOwnHash(c *Ctx, rule, suffix string) int {
 							why = "the hash (" + types.ExprString(uc.Args[1]) + ") is not sha256.Sum256 of a single value (it is assembled piecewise, so its input is not the byte sequence that is written)"
 							continue
 						}
-						if hf := calleeOf(info, hc); hf == nil || !strings.HasPrefix(fullName(hf), "crypto/sha256.Sum") {
+						if hf := calleeOf(info, hc); hf == nil || !wholeValueHasher(p, hf) {
 							why = "the hash (" + types.ExprString(uc.Args[1]) + ") is not sha256.Sum256 of a single value (it is assembled piecewise, so its input is not the byte sequence that is written)"
 							continue
 						}
